@@ -57,3 +57,10 @@ Proof.
   intros H. unfold records. rewrite split_at_unrecords by exact H.
   rewrite map_id, app_nil_r. reflexivity.
 Qed.
+
+(* (added for C07/C08) consecutive segments of a list with the given lengths *)
+Fixpoint chunks {A} (ns : list nat) (l : list A) : list (list A) :=
+  match ns with
+  | [] => []
+  | n :: r => firstn n l :: chunks r (skipn n l)
+  end.
